@@ -4,7 +4,9 @@ package main
 //   raw_tokens   vs  xml.NewDecoder configured as etree configures it, RawToken() to exhaustion
 //   read_root    vs  etree.Document.ReadFromBytes + Root()          (attributes de-duplicated)
 //   read_root_raw vs the same with ReadSettings.PreserveDuplicateAttrs
-//   token_view   vs  the element a default xml.Decoder's Token() loop delivers the way xml.Unmarshal consumes it
+//   token_view   vs  the element the Token() loop of a decoder configured like gosaml2's xmlUnmarshalDocument (Strict,
+//                    pass-through CharsetReader) delivers the way Decoder.Decode consumes it
+//   token_view_original vs the same for a default xml.Decoder (no CharsetReader: xml.Unmarshal, the pre-decoders before 6cc4dbc)
 // Streams: (a) documents the other streams of the run presented (noteDoc) and outputs of the three builders,
 // (b) truncations / single-bit flips of genuine messages, (c) a grammar-based generator of mostly valid XML,
 // (d) every boundary of the two name tables, found by asking the real decoder, (e) fixed cases (the witnesses of the
@@ -104,10 +106,14 @@ func realRoot(b []byte, preserveDup bool) string {
 	return "(Some (Some " + nodeTerm(d.Root()) + "))"
 }
 
-// realView: what xml.Unmarshal's token loop consumes (default decoder: Strict, no CharsetReader): everything before the first
-// StartElement is skipped, the element is read through Token() up to its end tag. Spaces are blanked (Token() has translated them).
-func realView(b []byte) string {
+// realView: what Decoder.Decode's token loop consumes (fresh decoder: Strict; passThrough = with the CharsetReader gosaml2's
+// xmlUnmarshalDocument sets, otherwise none, i.e. xml.Unmarshal): everything before the first StartElement is skipped, the
+// element is read through Token() up to its end tag. Spaces are blanked (Token() has translated them).
+func realView(b []byte, passThrough bool) string {
 	d := xml.NewDecoder(bytes.NewReader(b))
+	if passThrough {
+		d.CharsetReader = passThroughCharset
+	}
 	type el struct {
 		tag   string
 		attrs []string
@@ -159,7 +165,7 @@ func realView(b []byte) string {
 
 // ---------- the case sets ----------
 
-const xmltokInType = "(string * option (option node) * option (option node) * option node)"
+const xmltokInType = "(string * option (option node) * option (option node) * option node * option node)"
 
 type xmltokSets struct {
 	c          *Ctx
@@ -181,7 +187,7 @@ func newXmltokSets(c *Ctx) *xmltokSets {
 func (s *xmltokSets) add(stream string, b []byte, inTerm, desc string) {
 	c := s.c
 	toks, ok := realRawTokens(b, func(k string) { c.Count("xmltok:token:" + k) })
-	root, rootRaw, view := realRoot(b, false), realRoot(b, true), realView(b)
+	root, rootRaw, view, viewOrig := realRoot(b, false), realRoot(b, true), realView(b, true), realView(b, false)
 	c.Count("xmltok:stream:" + stream)
 	if ok {
 		c.Count("xmltok:" + stream + ":tokens-ok")
@@ -204,11 +210,14 @@ func (s *xmltokSets) add(stream string, b []byte, inTerm, desc string) {
 	} else if root != "None" && root != "(Some None)" {
 		c.Count("xmltok:" + stream + ":etree-root-but-unmarshal-view-error")
 	}
+	if view != "None" && viewOrig == "None" {
+		c.Count("xmltok:" + stream + ":view-only-with-pass-through-charset-reader")
+	}
 	cs := s.small
 	if len(b) > 1500 {
 		cs = s.big
 	}
-	cs.Add("("+inTerm+", "+root+", "+rootRaw+", "+view+")", VC("R", toks, VB(true), VB(true), VB(true)), stream+": "+desc)
+	cs.Add("("+inTerm+", "+root+", "+rootRaw+", "+view+", "+viewOrig+")", VC("R", toks, VB(true), VB(true), VB(true), VB(true)), stream+": "+desc)
 	s.n++
 	key := desc
 	if len(key) > 80 {
@@ -545,7 +554,13 @@ func runXmlTokNames(s *xmltokSets) {
 
 var xmltokFixed = []string{
 	"", " ", "<a/>", "<a></a>", "<a>", "</a>", "<a></b>", "<a:b></a:c>", "<a:b></b>", "<a/><b/>", "x<a/>y", "<a/>\n", "\ufeff<a/>",
-	`<?xml version="1.0" encoding="ISO-8859-1"?><a ID="1"/>`, // etree reads it, xml.Unmarshal refuses it (C20 witness)
+	`<?xml version="1.0" encoding="ISO-8859-1"?><a ID="1"/>`, // etree and xmlUnmarshalDocument read it, xml.Unmarshal refuses it (C20 witness, F14)
+	`<?xml version='1.0' encoding='utf8'?><r ID="_1" ID="_2">x</r>`,
+	`<?xml version="1.0" encoding="US-ASCII"?><a/>`,
+	`<?xml version="1.0" encoding="UTF-16"?><a/>`,
+	`<?xml version="1.0" encoding="x y"?><a/>`,
+	`<samlp:Response xmlns:samlp="urn:oasis:names:tc:SAML:2.0:protocol" ID="_1" InResponseTo="_q&#13;x" Version="2.0"/>`, // F13 witness
+	`<a b="x&#xD;&#xA;y">u&#13;<![CDATA[` + "\n" + `]]>v</a>`,
 	`<a ID="1" ID="2"/>`, `<a ID="a" xmlns:x="u" x:ID="s" ID="b"/>`,
 	"<a><![CDATA[]]></a>", "<a>x<![CDATA[y]]>z</a>", "<a>&#xD800;</a>", "<a>&#x110000;</a>", "<a b=\"x\ry\r\nz\"/>", "<a>\r</a>", "<a>\r\n</a>", "<a>a\r<![CDATA[\nb]]></a>",
 	"<a>]]></a>", "<a b=']]>'/>", "<a>]]&gt;</a>", "<a>&amp;#60;</a>", "<a b='<'/>", "<a b=\"'\" c='\"'/>", "<a b='1'c='2'/>", "<a\tb = '1'\n/>",
